@@ -239,6 +239,10 @@ func (f *Frame) checkPanicExit(e Exit) {
 	con := f.con
 	name := shortFn(f.fn)
 	tag := f.exitSite(e)
+	for _, h := range con.Hints["panic"] {
+		// 'at panic assert e': holds whenever the function panics (state of the panic exit)
+		f.applyHint(h, e.Cond, e.St, "panic@"+tag)
+	}
 	if len(con.PanicsWith) > 0 {
 		penv := f.envPost(e.St, nil)
 		pv := f.termOf(e.PanicVal)
